@@ -181,4 +181,31 @@ theorem lex_render (H : ScaledRoundTrip) (raw : Char → Bool) (cs : List Call) 
   simp only [List.append_nil, lex_nil, Res.prepend] at this
   exact this
 
+/-! ### comments -/
+
+theorem dropLine_comment : ∀ (cmt s : List Char), (∀ x ∈ cmt, x ≠ '\n') →
+    dropLine (cmt ++ '\n' :: s) = s := by
+  intro cmt
+  induction cmt with
+  | nil => intro s _; simp [dropLine]
+  | cons c cmt ih =>
+    intro s h
+    simp only [List.cons_append, dropLine, h c (by simp), if_false]
+    exact ih s (fun x hx => h x (by simp [hx]))
+
+/-- A comment line lexes to nothing. -/
+theorem lex_comment (cmt s : List Char) (h : ∀ x ∈ cmt, x ≠ '\n') :
+    lex ('#' :: (cmt ++ '\n' :: s)) = lex s := by
+  rw [lex_cons]
+  have : lexStep '#' (cmt ++ '\n' :: s) = .skip s := by
+    unfold lexStep
+    rw [if_pos rfl, dropLine_comment cmt s h]
+  rw [this]
+
+/-- A comment line after printed calls (at any depth) does not change the tokens. -/
+theorem lex_comment_after_calls (H : ScaledRoundTrip) (raw : Char → Bool) (cs : List Call) (d : Nat)
+    (cmt rest : List Char) (hc : callsOk cs = true) (h : ∀ x ∈ cmt, x ≠ '\n') :
+    lex (renderCalls raw d cs ++ '#' :: (cmt ++ '\n' :: rest)) = lex (renderCalls raw d cs ++ rest) := by
+  rw [lex_renderCalls H raw cs d _ hc, lex_renderCalls H raw cs d _ hc, lex_comment cmt rest h]
+
 end C18
